@@ -6,8 +6,8 @@ import (
 	"testing/synctest"
 	"time"
 
-	kvredis "github.com/acquirecloud/golibs/kvs/redis"
 	"github.com/acquirecloud/golibs/kvs/inmem"
+	kvredis "github.com/acquirecloud/golibs/kvs/redis"
 	"github.com/alicebob/miniredis/v2"
 	goredis "github.com/go-redis/redis/v8"
 	"pgregory.net/rapid"
